@@ -695,6 +695,16 @@ def work(job):
     if src_root not in sys.path:
         sys.path.insert(0, src_root)
     from vloop import VirtualLoop
+    files = []                      # [path, number of cases]: chunks of at most CHUNK cases
+
+    def flush(final=False):
+        if cases and (final or len(cases) >= CHUNK):
+            path = "%s.%d.json" % (job["out"], len(files))
+            with open(path, "w") as f:
+                json.dump(cases, f, separators=(",", ":"))
+            files.append([path, len(cases)])
+            del cases[:]
+
     cases, stats = [], {"programs": 0, "runs": 0, "events": 0, "same": 0, "differ": 0, "syntax": 0, "toolong": 0,
                         "shapes": set(), "nontrivial": set(), "depth": {}, "outcomes": {}, "feat": {}, "ev": {}}
 
@@ -751,6 +761,7 @@ def work(job):
                         stats["differ"] += 1
                         cases.append(dict(base, id=cid + "#cpy", who="cpy", trace=clog))
                         cases.append(dict(base, id=cid + "#pys", who="pys", trace=plog))
+                flush()
             await Function.waiter_stop()
             await Function.reaper_stop()
             await hass.async_stop(force=True)
@@ -760,12 +771,11 @@ def work(job):
     asyncio.set_event_loop(loop)
     loop.run_until_complete(main(loop))
     loop.close()
-    with open(job["out"], "w") as f:
-        json.dump(cases, f, separators=(",", ":"))
-    stats["cases"] = len(cases)
+    flush(final=True)
+    stats["cases"] = sum(n for _, n in files)
     stats["shapes"] = sorted(stats["shapes"])
     stats["nontrivial"] = sorted(stats["nontrivial"])
-    stats["out"] = job["out"]
+    stats["files"] = files
     return stats
 
 
@@ -793,6 +803,8 @@ def tla_funcs(funcs):
 JVM = "-Xss64m -Xmx6g -XX:ParallelGCThreads=4"
 NJVM = 4
 CHAINS = 4
+CHUNK = 6000          # cases per file written by a worker
+GROUP = 36000         # cases per TLC process
 
 
 def merge_files(paths, out):
@@ -808,17 +820,27 @@ def merge_files(paths, out):
         f.write("]")
 
 
-def accept_files(ctx, paths, label, counts):
-    """TLC decides every recording: NJVM processes side by side, CHAINS workers each (one chain of cases per
-    worker); returns {id: reject}.  counts[i] = number of cases in paths[i]."""
-    groups = [([], [0]) for _ in range(min(NJVM, len(paths)))]
-    for i, (p, n) in enumerate(zip(paths, counts)):
-        g = groups[i % len(groups)]
-        g[0].append(p)
-        g[1][0] += n
+def accept_files(ctx, files, label, keep=2):
+    """TLC decides every recording.  files = [[path, ncases]]; they are merged into groups of at most GROUP
+    cases, NJVM TLC processes side by side, CHAINS workers each (one chain of cases per worker).  Rejected
+    cases are triaged group by group; chunk files are deleted afterwards except the first `keep`."""
+    groups, cur, n = [], [], 0
+    for p, c in files:
+        if cur and n + c > GROUP:
+            groups.append((cur, n))
+            cur, n = [], 0
+        cur.append(p)
+        n += c
+    if cur:
+        groups.append((cur, n))
+    if len(groups) < NJVM and len(files) >= NJVM:           # few cases: still use all processes
+        groups = [([], 0) for _ in range(NJVM)]
+        for i, (p, c) in enumerate(files):
+            groups[i % NJVM] = (groups[i % NJVM][0] + [p], groups[i % NJVM][1] + c)
+    kept = set(p for p, _ in files[:keep])
 
     def one(arg):
-        gi, (ps, (n,)) = arg
+        gi, (ps, n) = arg
         merged = os.path.join(ctx.scratch, "c02_all_%s_%d.json" % (label, gi))
         merge_files(ps, merged)
         small = n < 200
@@ -827,18 +849,29 @@ def accept_files(ctx, paths, label, counts):
         os.unlink(merged)
         if res.distinct not in (max(n, 1 if small else CHAINS), n + 1):
             raise MachineryFailure("PyFlow visited %d states for %d cases" % (res.distinct, n))
-        return res
+        rejects = {}
+        for rj in res.rejects:
+            if "id" not in rj:
+                raise MachineryFailure("unparsable REJECT line: %r" % rj)
+            rejects[rj["id"]] = rj
+        rejected_cases = []
+        if rejects:
+            for p in ps:
+                rejected_cases += [c for c in json.load(open(p)) if c["id"] in rejects]
+        for p in ps:
+            if p not in kept:
+                os.unlink(p)
+        return res, rejects, rejected_cases
 
-    rejects = {}
+    all_rejects = {}
     with ThreadPoolExecutor(max_workers=NJVM) as ex:
-        for res in ex.map(one, enumerate(groups)):
+        for res, rejects, rejected_cases in ex.map(one, enumerate(groups)):
             ctx.add_tlc(res, None)
-            ctx.cov["tlc_acceptor_cpu_wall_s"] = round(ctx.cov.get("tlc_acceptor_cpu_wall_s", 0) + res.wall, 1)
-            for rj in res.rejects:
-                if "id" not in rj:
-                    raise MachineryFailure("unparsable REJECT line: %r" % rj)
-                rejects[rj["id"]] = rj
-    return rejects
+            ctx.cov["tlc_acceptor_runs"] = ctx.cov.get("tlc_acceptor_runs", 0) + 1
+            ctx.cov["tlc_acceptor_sum_wall_s"] = round(ctx.cov.get("tlc_acceptor_sum_wall_s", 0) + res.wall, 1)
+            triage(ctx, rejected_cases, rejects)
+            all_rejects.update(rejects)
+    return all_rejects, sorted(kept)
 
 
 def dec_str(d):
@@ -857,39 +890,34 @@ def signature(rj, case):
         "got": got.get("e", ""),
         "after": dec_str(decs[0]) if decs else "",
         "jump": "loop-else" if any("in-loop-else" in d["cl"] + d.get("a", "") for d in decs) else "",
-        "exc": "B1" if any(d.get("x") == "B1" for d in decs) or rj["want"].get("x") == "B1" else "",
-        "gotx": got.get("x", "") if got.get("e") == "end" and got.get("k") == "raise" else "",
+        "b1": "raised" if rj.get("b1") else "",
+        "rebind": "unbound-at-handler-exit" if rj.get("unb") else "",
     }
 
 
-def triage(ctx, paths, rejects):
+def triage(ctx, cases, rejects):
     """CPython rejected -> machinery failure; pyscript rejected -> report with signature."""
-    if not rejects:
-        return
-    need = set(rejects)
-    for path in paths:
-        for c in json.load(open(path)):
-            if c["id"] not in need:
-                continue
-            rj = rejects[c["id"]]
-            src = source_of_case(c)
-            if c["who"] in ("cpy", "both"):
-                raise MachineryFailure("CPython's own recording rejected by PyFlow (specification wrong): %s\n%s\ntrace=%s"
-                                       % (json.dumps(rj), src, json.dumps(c["trace"])))
-            sig = signature(rj, c)
-            what = "pyscript recording rejected at event %d: %s/%s after %s (want %s, got %s)" % (
-                rj["at"], sig["construct"], sig["clause"], sig["after"] or "-", json.dumps(rj["want"]), json.dumps(rj["got"]))
-            verdict = ctx.report(sig, what, {"pid": c["pid"], "funcs": c["funcs"], "top": c["top"], "oracle": c["oracle"],
-                                             "source": src, "pyscript_trace": c["trace"], "reject": rj, "feat": c["feat"]})
-            if c["pid"].startswith("W"):
-                f = ctx.findings[int(c["pid"][1:])]
-                ok = verdict == "known" and all(sig.get(k) == v for k, v in f["signature"].items())
-                ctx.cov.setdefault("witnesses_reproduced", {})[f["signature"].get("clause") or f["signature"].get("after") or f["mask"]] = ok
-            ctx.cov.setdefault("rejections_by_signature", {})
-            key = "%s | %s/%s | after %s | got %s%s%s" % (sig["space"], sig["construct"], sig["clause"], sig["after"] or "-",
-                                                          sig["got"], " | jump=loop-else" if sig["jump"] else "",
-                                                          (" | exc=B1" if sig["exc"] else "") + (" | gotx=" + sig["gotx"] if sig["gotx"] else ""))
-            ctx.cov["rejections_by_signature"][key] = ctx.cov["rejections_by_signature"].get(key, 0) + 1
+    for c in cases:
+        rj = rejects[c["id"]]
+        src = source_of_case(c)
+        if c["who"] in ("cpy", "both"):
+            raise MachineryFailure("CPython's own recording rejected by PyFlow (specification wrong): %s\n%s\ntrace=%s"
+                                   % (json.dumps(rj), src, json.dumps(c["trace"])))
+        sig = signature(rj, c)
+        what = "pyscript recording rejected at event %d: %s/%s after %s (want %s, got %s)" % (
+            rj["at"], sig["construct"], sig["clause"], sig["after"] or "-", json.dumps(rj["want"]), json.dumps(rj["got"]))
+        verdict = ctx.report(sig, what, {"pid": c["pid"], "funcs": c["funcs"], "top": c["top"], "oracle": c["oracle"],
+                                         "source": src, "pyscript_trace": c["trace"], "reject": rj, "feat": c["feat"]})
+        if c["pid"].startswith("W"):
+            f = ctx.findings[int(c["pid"][1:])]
+            ok = verdict == "known" and all(sig.get(k) == v for k, v in f["signature"].items())
+            ctx.cov.setdefault("witnesses_reproduced", {})["%s %s" % (f["mask"], json.dumps(f["signature"], sort_keys=True))] = ok
+        key = "%s | %s/%s | after %s | got %s%s%s%s" % (
+            sig["space"], sig["construct"], sig["clause"], sig["after"] or "-", sig["got"],
+            " | jump=loop-else" if sig["jump"] else "", " | B1 raised" if sig["b1"] else "",
+            " | as-name unbound at handler exit" if sig["rebind"] else "")
+        by = ctx.cov.setdefault("rejections_by_signature", {})
+        by[key] = by.get(key, 0) + 1
 
 
 def render_funcs(funcs):
@@ -956,6 +984,11 @@ def selftest(ctx, paths, rejects):
             bad.append(dict(c, id="corrupt-exit/%s" % c["id"], trace=t2))
     if len(bad) < 50:
         raise MachineryFailure("selftest: too few accepted recordings to corrupt (%d)" % len(bad))
+    kinds = {}
+    for c in bad:
+        k = c["id"].split("/")[0]
+        kinds[k] = kinds.get(k, 0) + 1
+    ctx.cov["selftest_corruption_kinds"] = kinds
     path = os.path.join(ctx.scratch, "c02_corrupt.json")
     json.dump(bad, open(path, "w"))
     res = tlc.accept_batch("PyFlow", path, ctx.scratch, cfg="PyFlow.cfg", workers=CHAINS, env={"JAVA_TOOL_OPTIONS": JVM})
@@ -978,9 +1011,6 @@ def witness_cases(ctx):
 
 
 # ------------------------------------------------------------------------------ model checking part
-WITNESSES = ("W_NoFinallyAfterRaise", "W_NoSuppress", "W_NoBreakSkipsElse", "W_NoReturnThroughCall", "W_NoFinallyOverride")
-
-
 def mc_cfg(ctx, name, k, deep, invariant="Theorems"):
     cfg = os.path.join(ctx.scratch, "PyFlowMC_%s.cfg" % name)
     with open(cfg, "w") as f:
@@ -997,27 +1027,18 @@ def model_check_start(ctx, pool):
         futs.append((label + ", K=%d" % k, None,
                      pool.submit(tlc.run, "PyFlowMC", cfg, ctx.scratch, workers=8, timeout=3000,
                                  env={"JAVA_TOOL_OPTIONS": "-Xss64m -Xmx6g -XX:ParallelGCThreads=4"})))
-    for w in WITNESSES:
-        cfg = mc_cfg(ctx, w, 1, 0, w)
-        futs.append((w, w, pool.submit(tlc.run, "PyFlowMC", cfg, ctx.scratch, workers=2, timeout=900,
-                                       env={"JAVA_TOOL_OPTIONS": "-Xss64m -Xmx2g -XX:ParallelGCThreads=2"})))
     return futs
 
 
 def model_check_finish(ctx, futs):
-    nw = 0
     for label, wit, fut in futs:
-        res = fut.result()
-        if wit:
-            if res.ok:
-                raise MachineryFailure("witness %s holds: the family never exercises the case" % wit)
-            nw += 1
-            continue
+        res = fut.result()          # a false witness ASSUME of PyFlowMC makes TLC fail: TLCError -> exit 2
         if not res.ok:
             ctx.report({"clause": "model:" + str(res.violated)}, "PyFlowMC violates %s" % res.violated, {"cex": res.cex})
         ctx.add_tlc(res, "PyFlowMC(%s)" % label)
         ctx.cov["mc_programs_x_oracles"] = ctx.cov.get("mc_programs_x_oracles", 0) + res.distinct
-    ctx.cov["witnesses_violated_as_expected"] = nw
+    ctx.cov["witness_assumptions_checked"] = ["FinallyAfterRaise", "Suppressed", "BreakSkipsElse", "ReturnThroughCall",
+                                              "FinallyOverrides", "EnterFails"]
     ctx.cov["mc_theorems"] = ["WellFormed", "RunsAreTotal(AllClosed)", "FinallyExactlyOnce", "ExitPairsEnterLIFO", "ElseIffNoBreak",
                               "JumpsStayInFunction", "SelfAccept"]
 
@@ -1038,22 +1059,27 @@ def merge_stats(ctx, results):
 
 
 def main(ctx):
+    import time
     if ctx.replay:
         rp = json.load(open(ctx.replay))
         c = rp["case"]
-        job = {"kind": "explicit", "cases": [{"pid": c.get("pid", "replay"), "funcs": render_funcs(c["funcs"]), "top": c["top"],
+        job = {"kind": "explicit", "cases": [{"pid": "replay", "funcs": render_funcs(c["funcs"]), "top": c["top"],
                                               "oracle": c["oracle"]}],
-               "out": os.path.join(ctx.scratch, "c02_replay.json")}
-        run_workers("harness.drivers.c02", "work", [job], ctx.scratch, nproc=1)
-        n = len(json.load(open(job["out"])))
-        rejects = accept_files(ctx, [job["out"]], "replay", [n])
-        ctx.cov["traces_validated_against_impl"] += n
-        triage(ctx, [job["out"]], rejects)
-        for cse in json.load(open(job["out"])):
+               "out": os.path.join(ctx.scratch, "c02_replay")}
+        res = run_workers("harness.drivers.c02", "work", [job], ctx.scratch, nproc=1)[0]
+        print(source_of_case({"funcs": c["funcs"], "top": c["top"]}))
+        cases = [x for p, _ in res["files"] for x in json.load(open(p))]
+        rejects, _ = accept_files(ctx, res["files"], "replay", keep=0)
+        ctx.cov["traces_validated_against_impl"] += len(cases)
+        for cse in cases:
             print("replay %s: %s" % (cse["id"], "REJECTED " + json.dumps(rejects[cse["id"]]) if cse["id"] in rejects else "accepted"))
+            print("   trace: " + json.dumps(cse["trace"]))
+        # only the findings this one program hits are of interest here (no STALE-FINDING noise)
+        hits = sorted(ctx.known_hits)
+        ctx.findings, ctx.known_hits = [ctx.findings[i] for i in hits], {j: ctx.known_hits[i] for j, i in enumerate(hits)}
         return
     # (M) - started here, collected after the recording phase
-    pool = ThreadPoolExecutor(max_workers=8)
+    pool = ThreadPoolExecutor(max_workers=4)
     mc = model_check_start(ctx, pool) if not os.environ.get("C02_SKIP_MC") else []
     # (T)
     nw = 16
@@ -1062,52 +1088,50 @@ def main(ctx):
     for k in range(nw):
         subs = [
             {"kind": "family", "level": 1, "parts": family_parts(1), "frac": min(1.0, scale), "of": nw, "slice": k, "seed": ctx.seed},
-            {"kind": "family", "level": 2, "parts": family_parts(2), "frac": ctx.pick(0.04, 1.0) * scale, "of": nw, "slice": k,
-             "seed": ctx.seed + 1 + k},
-            {"kind": "sample", "level": 3, "count": int(ctx.pick(60, 8000) * scale), "seed": ctx.seed * 1000 + 500 + k, "maxpaths": 6},
-            {"kind": "random", "seed": ctx.seed * 1000 + k, "count": int(ctx.pick(200, 15000) * scale), "depth": 6},
+            {"kind": "family", "level": 2, "parts": family_parts(2), "frac": min(1.0, ctx.pick(0.04, 1.0) * scale), "of": nw,
+             "slice": k, "seed": ctx.seed + 1 + k},
+            {"kind": "sample", "level": 3, "count": int(ctx.pick(60, 4000) * scale), "seed": ctx.seed * 1000 + 500 + k, "maxpaths": 6},
+            {"kind": "random", "seed": ctx.seed * 1000 + k, "count": int(ctx.pick(200, 8000) * scale), "depth": 6},
         ]
         if k == 0 and witness_cases(ctx):
             subs.append({"kind": "explicit", "cases": witness_cases(ctx)})
-        jobs.append({"subs": subs, "out": os.path.join(ctx.scratch, "c02_cases_%d.json" % k)})
-    import time
+        jobs.append({"subs": subs, "out": os.path.join(ctx.scratch, "c02_cases_%d" % k)})
     t0 = time.time()
-    results = run_workers("harness.drivers.c02", "work", jobs, ctx.scratch)
+    results = run_workers("harness.drivers.c02", "work", jobs, ctx.scratch, timeout=6000)
     ctx.cov["workers_wall_s"] = round(time.time() - t0, 1)
     t0 = time.time()
-    paths = [r["out"] for r in results]
-    rejects = accept_files(ctx, paths, "main", [r["cases"] for r in results])
+    files = [f for r in results for f in r["files"]]
+    rejects, kept = accept_files(ctx, files, "main")
     ctx.cov["acceptor_phase_wall_s"] = round(time.time() - t0, 1)
     t0 = time.time()
     model_check_finish(ctx, mc)
     pool.shutdown()
-    print("phases: workers %.1fs acceptor %.1fs mc(after) %.1fs" % (ctx.cov["workers_wall_s"], ctx.cov["acceptor_phase_wall_s"],
-                                                                  time.time() - t0), file=sys.stderr)
+    ctx.cov["mc_wait_after_acceptor_s"] = round(time.time() - t0, 1)
     tot, shapes, nontrivial, depth, feat, ev = merge_stats(ctx, results)
     ctx.cov["traces_validated_against_impl"] += tot["cases"]
-    triage(ctx, paths, rejects)
-    cpy_cases = tot["same"] + tot["differ"]
     ctx.cov.update({
         "programs": tot["programs"], "program_runs": tot["runs"], "events_cpython": tot["events"],
         "pyscript_identical_to_cpython": tot["same"], "pyscript_differs": tot["differ"],
-        "cpython_recordings_accepted": cpy_cases, "pyscript_recordings_rejected": len(rejects),
+        "cpython_recordings_accepted": tot["same"] + tot["differ"], "pyscript_recordings_rejected": len(rejects),
         "discarded_syntax": tot["syntax"], "discarded_too_long": tot["toolong"],
         "evaluations": tot["runs"], "distinct_nontrivial": len(nontrivial), "distinct_skeletons": len(shapes),
-        "rule": ("programs = bounded-exhaustive family of nesting 1 (all), 2 and 3 (seeded sample in quick) over {if, while, for "
-                 "(+else), try-except / try-finally / try-except-else-finally, with 1-2 managers, call} x every placement of "
-                 "{fall-through, raise E1/E3, bare raise, assert, return, break, continue} in every slot x 3 contexts (function, "
-                 "loop body, module) x all oracle paths of <= 4 decisions, plus random programs of depth <= 6 (1-3 functions, "
-                 "2 random oracle vectors each); evaluation = one (program, oracle) run under both interpreters; non-trivial = "
-                 "CPython's recording has more than 2 events; distinct by (skeleton without site numbers, consumed oracle prefix)"),
+        "rule": ("programs = bounded-exhaustive family of nesting 1 (all), nesting 2 (all in thorough, seeded 4% sample in quick) "
+                 "and a seeded sample of nesting 3, over {if, while, for (+else), try-except / try-finally / "
+                 "try-except-else-finally, with 1-2 managers, call} x every placement of {fall-through, raise E1/E3, bare raise, "
+                 "assert, return, break, continue} in every slot x 3 contexts (function, loop body, module) x all oracle paths "
+                 "of <= 4 decisions, plus random programs of depth <= 6 (1-3 functions, 2 random oracle vectors each); "
+                 "evaluation = one (program, oracle) run under both interpreters; non-trivial = CPython's recording has more "
+                 "than 2 events; distinct by (skeleton without site numbers, consumed oracle prefix)"),
         "depth_histogram": depth, "programs_by_mask_feature": feat, "cpython_event_histogram": ev,
         "masked_space_programs": feat.get("(masked)", 0),
+        "unmasked_space_programs": tot["programs"] - feat.get("(masked)", 0),
     })
-    if tot["programs"] < 1000 or ev.get("exit", 0) < 100 or ev.get("x", 0) < 20 or ev.get("r", 0) < 50:
+    need = {"exit": 100, "x": 20, "r": 50, "nx": 100, "c": 500}
+    if scale >= 1 and (tot["programs"] < 5000 or any(ev.get(k, 0) < v for k, v in need.items())):
         raise MachineryFailure("vacuous coverage: %s %s" % (tot, ev))
-    selftest(ctx, paths, rejects)
-    for path in paths[:1] + paths[-3:-2]:
-        cs = json.load(open(path))
-        for c in cs[:1]:
+    selftest(ctx, kept, rejects)
+    for path in kept:
+        for c in json.load(open(path))[:2]:
             ctx.sample({"source": source_of_case(c), "oracle": c["oracle"], "recording": c["trace"], "who": c["who"]})
     ctx.assumptions += [
         "exception identity is observed as (class, raise-site number, class of __cause__); __context__ and traceback contents are not compared",
@@ -1115,4 +1139,5 @@ def main(ctx):
         "conditions are oracle calls c(n): truth-testing of arbitrary objects is C01's business",
         "only programs CPython's compiler accepts are generated (break/continue/return placement errors are excluded by the property's quantifier)",
         "async with / async for / except* / match / generators are outside the statement",
+        "in the unmasked space (programs containing a construct in the domain of a known finding) a rejection is attributed by the acceptor's locus; only the masked space is claimed clean",
     ]
